@@ -239,7 +239,28 @@ def reverse_elif(src, relpath):
         yield ("negate-if:%s" % relpath, relpath, ast.unparse(ast.fix_missing_locations(tree)))
 
 
-GENERATORS = [alpha_rename, commute, alias_temps, swap_independent, early_exit, insert_noise, reverse_elif]
+def guard_to_continue(src, relpath):
+    """`if c: BODY` as the LAST statement of a loop body (no else) -> `if not c: continue` + BODY;
+    an `==` test is turned into `!=` instead of wrapping it in `not`."""
+    tree = ast.parse(src)
+    n_ch = [0]
+    for n in ast.walk(tree):
+        if isinstance(n, (ast.For, ast.While)) and n.body and isinstance(n.body[-1], ast.If) and not n.body[-1].orelse:
+            st = n.body[-1]
+            if any(isinstance(x, (ast.Break, ast.Continue)) for x in ast.walk(st)):
+                continue
+            t = st.test
+            if isinstance(t, ast.Compare) and len(t.ops) == 1 and isinstance(t.ops[0], ast.Eq):
+                neg = ast.Compare(left=t.left, ops=[ast.NotEq()], comparators=t.comparators)
+            else:
+                neg = ast.UnaryOp(op=ast.Not(), operand=t)
+            n.body = n.body[:-1] + [ast.If(test=neg, body=[ast.Continue()], orelse=[])] + st.body
+            n_ch[0] += 1
+    if n_ch[0]:
+        yield ("guard-continue:%s" % relpath, relpath, ast.unparse(ast.fix_missing_locations(tree)))
+
+
+GENERATORS = [alpha_rename, commute, alias_temps, swap_independent, early_exit, insert_noise, reverse_elif, guard_to_continue]
 
 
 def all_benign(root):
